@@ -41,6 +41,9 @@ TRUSTED = [
 ]
 NOT_DECIDED = ['well-formedness of result values (start <= end, non-negative times) as facts about numbers']
 ASSUMPTIONS = ['callers do not share sub-messages between two NoteSequences (protobuf forbids it)']
+# rules whose verdict does not depend on how the statements are arranged (semantic analyses); all other rules are shape rules:
+# when one of those fails in a function that was restructured relative to reference/signatures.json the verdict is "cannot decide"
+ROBUST = ('OWN/write', 'OWN/return', 'OWN-RO/write', 'DET', 'PAIR/steps-total-order')
 FLOORS = {'OWN/write': 150, 'OWN/return': 19, 'DET/ext-call': 20, 'PAIR/end-total': 6, 'PAIR/steps-total-order': 2}
 
 NONDET_PREFIX = ('random.', 'numpy.random.', 'time.', 'os.', 'uuid.', 'tempfile.')
